@@ -269,9 +269,73 @@ func c11Bounds(t *decl.Type) []*big.Int {
 
 func init() {
 	body := func(c *explore.Ctx) {
-		part := c.Choose(5)
-		c11IgnoreUnknown = part != 0 && part != 2 && c.Bool()
+		part := c.Choose(6)
+		c11IgnoreUnknown = part != 0 && part != 2 && part != 5 && c.Bool()
 		switch part {
+		case 5: // a list in an environment variable, split on env-delim: every piece is a value of the element type
+			types := []*decl.Type{decl.TInts, decl.TStrings, decl.TMapSI, decl.TUint8s}
+			t := types[c.Choose(len(types))]
+			pieces := [][]string{{"1"}, {"1", "2"}, {"1", "", "2"}, {"1", "2", ""}, {"", "1"}, {"", ""}, {"1", "x"}, {"1", " 2"}}[c.Choose(8)]
+			delim := []string{",", ";;"}[c.Choose(2)]
+			if t == decl.TMapSI {
+				for i, p := range pieces {
+					if p != "" {
+						pieces[i] = "k" + p + ":" + strings.TrimSpace(p)
+						if p == "x" {
+							pieces[i] = "kx:x"
+						}
+					}
+				}
+			}
+			text := strings.Join(pieces, delim)
+			c.Describe(func() interface{} {
+				return map[string]interface{}{"part": "env-delim", "type": t.Name, "env-delim": delim, "variable": text}
+			})
+			o := &decl.Opt{Field: "Val", Long: "val", Type: t, Env: "C11_LIST", EnvDelim: delim}
+			d := (&decl.Decl{Top: &decl.Cmd{Name: "app", Opts: []*decl.Opt{o}}}).Finish()
+			b := d.BuildTags()
+			if b.Err != nil {
+				c.Fail("setup-error", b.Err.Error())
+				return
+			}
+			os.Setenv("C11_LIST", text)
+			rr := runParser(b, &ref.Config{D: d}, nil, runOpts{})
+			os.Unsetenv("C11_LIST")
+			if rr.Panic != nil {
+				c.Fail("panic|"+rr.PanicSite, fmt.Sprint(rr.Panic))
+				return
+			}
+			// reference: fold the pieces one by one
+			cur := ref.Empty(t.RT)
+			var werr error
+			for _, p := range pieces {
+				nv, err := ref.Apply(cur, 10, p)
+				if err != nil {
+					werr = err
+					break
+				}
+				cur = nv
+			}
+			c.Outcome("env-delim", t.Name, fmt.Sprint(werr), errType(rr.Err), ref.Show(b.Vals[o]))
+			switch {
+			case werr == ref.ErrGrey:
+				c.Hit("grey")
+			case werr != nil:
+				c.Hit("must-reject")
+				if rr.Err == nil {
+					c.Fail("invalid-value-accepted|"+t.Name+"|environment list", map[string]interface{}{"stored": ref.Show(b.Vals[o])})
+				} else if fe, ok := rr.Err.(*flags.Error); !ok || fe.Type != flags.ErrMarshal {
+					c.Fail("rejection-not-ErrMarshal|"+errType(rr.Err)+"|environment list", fmt.Sprint(rr.Err))
+				}
+			default:
+				c.Hit("must-accept")
+				if rr.Err != nil {
+					c.Fail("valid-value-rejected|"+t.Name+"|environment list", fmt.Sprint(rr.Err))
+				} else if !ref.SameValue(cur, b.Vals[o]) {
+					c.Fail("inexact-value|"+t.Name+"|environment list", map[string]interface{}{"want": ref.Show(cur), "got": ref.Show(b.Vals[o])})
+				}
+			}
+			return
 		case 0: // every value of the small integer types in every base
 			t := c11SmallInts[c.Choose(len(c11SmallInts))]
 			var base int
@@ -369,7 +433,7 @@ func init() {
 		Rule: "(i) every value of int8/uint8/int16/uint16 plus two out-of-range neighbours on each side, rendered in every base 2..36 in both letter cases; " +
 			"(ii) min-1,min,min+1,-1,0,1,max-1,max,max+1,2^64,2^128,-2^63,-2^63-1 for int/int16/int32/int64/uint/uint16/uint32/uint64 in bases 10,2,8,16,36, with and without a leading zero, through 6 paths (--val=V, --val V, default tag, environment, positional, INI entry); " +
 			"(iii) every string of length <= 4 over {0 1 9 a f z - + . e x _ space I n :} for 13 types x bases 10,2,16,36 (thorough: also via default tag and positional); (iv) 56 float rounding/limit/spelling witnesses x sign x float32/float64 x 6 paths; " +
-			"(v) choice sets (also: a different set first, one use, then the set edited through Option.Choices) x near-miss values (prefix, suffix, case, padding, leading zero/plus) x 4 paths; (ii), (iv) and (v) also with IgnoreUnknown set on the parser; oracle: own digit parser + math/big (integers), big.Rat nearest-even (floats), three classes must-accept / must-reject / grey; " +
+			"(v) choice sets (also: a different set first, one use, then the set edited through Option.Choices) x near-miss values (prefix, suffix, case, padding, leading zero/plus) x 4 paths; (vi) lists in an environment variable split on env-delim {',', ';;'} for []int, []string, map[string]int, []uint8: 8 piece patterns with empty, blank-padded and unconvertible pieces (every piece is a value of the element type: an empty piece is an element of a []string and a fault for a number); (ii), (iv) and (v) also with IgnoreUnknown set on the parser; oracle: own digit parser + math/big (integers), big.Rat nearest-even (floats), three classes must-accept / must-reject / grey; " +
 			"distinct = distinct (type, base, class, accepted?, stored value)",
 		Assumptions:  []string{"duration syntax is Go's time.ParseDuration (trusted)", "bool spellings other than true/false, a leading '+', inf/nan/hex-float/underscore spellings are grey: acceptance not asserted, exactness is"},
 		RequiredHits: []string{"must-accept", "must-reject", "grey", "not-a-choice"},
